@@ -138,6 +138,18 @@ def g_live(rng, nodes):
     return ['row_rep', y, rep] if rng.random() < 0.5 else ['cell_rep', x, y, rep]
 
 
+def g_opaque(rng, nodes):
+    cols, rows = tl.shape_of(nodes)
+    y = tl.pick_pos(rng, [r for r, _ in rows], allow_neg=False); x = tl.pick_pos(rng, [r for r, _ in cols], allow_neg=False)
+    k = rng.choice(['rstrip', 'optimize_width', 'transpose', 'row_rstrip', 'row_append', 'row_set', 'row_insert', 'row_delete'])
+    if k == 'rstrip': return [k, rng.random() < 0.5]
+    if k in ('optimize_width', 'transpose'): return [k]
+    if k == 'row_rstrip': return [k, y]
+    if k == 'row_append': return [k, y, tl.g_cellspec(rng)]
+    if k in ('row_set', 'row_insert'): return [k, y, x, tl.g_cellspec(rng)]
+    return [k, y, x]
+
+
 def c_reads(l):
     return '[' + ';'.join('(%s, %s)' % (c_bread(q), c_bans(q, a)) for q, a in l) + ']'
 
@@ -242,6 +254,26 @@ class Runner(tl.Driver):
         except Exception as e:
             return repr(e)
 
+    def apply_opaque(self, o, table):
+        """operations outside the modelled alphabet: judged by coherence, fresh-parse equality and the twin only"""
+        od = self.odfdo
+        try:
+            k = o[0]
+            if k == 'rstrip': tl.timed(table.rstrip, aggressive=o[1])
+            elif k == 'optimize_width': tl.timed(table.optimize_width)
+            elif k == 'transpose': tl.timed(table.transpose)
+            elif k == 'row_rstrip': tl.timed(tl.timed(table.get_row, o[1], clone=False).rstrip)
+            elif k == 'row_append': tl.timed(tl.timed(table.get_row, o[1], clone=False).append_cell, tl.mk_cell(od, o[2]))
+            elif k == 'row_set': tl.timed(tl.timed(table.get_row, o[1], clone=False).set_cell, o[2], tl.mk_cell(od, o[3]))
+            elif k == 'row_insert': tl.timed(tl.timed(table.get_row, o[1], clone=False).insert_cell, o[2], tl.mk_cell(od, o[3]))
+            elif k == 'row_delete': tl.timed(tl.timed(table.get_row, o[1], clone=False).delete_cell, o[2])
+            else: raise KeyError(k)
+            return None
+        except KeyError:
+            raise
+        except Exception as e:
+            return repr(e)
+
     def try_read(self, q, table):
         try:
             return self.read_b(q, table), None
@@ -267,16 +299,21 @@ class Runner(tl.Driver):
             a, raised = self.apply(st['op'])
             with self.on(twin):
                 a2, traised = self.apply(st['op'])
-            coq_op = 'BMut (%s)' % tl.c_op(a)
+            coq_op = 'Some (BMut (%s))' % tl.c_op(a)
+        elif 'opaque' in st:
+            raised = self.apply_opaque(st['opaque'], t)
+            traised = self.apply_opaque(st['opaque'], twin)
+            coq_op = 'None'
+            a = None
         elif 'live' in st:
             raised = self.apply_live(st['live'], t)
             traised = self.apply_live(st['live'], twin)
-            coq_op = 'BLive (%s)' % c_lop(st['live'])
+            coq_op = 'Some (BLive (%s))' % c_lop(st['live'])
             a = None
         else:
             out, raised = self.try_read(st['read'], t)
             tout, traised = self.try_read(st['read'], twin)
-            coq_op = 'BRead (%s)' % c_bread(st['read'])
+            coq_op = 'Some (BRead (%s))' % c_bread(st['read'])
             a = None
         post = self.abs()
         postd = dump(t)
@@ -321,7 +358,7 @@ class Runner(tl.Driver):
 
 HEADER = ('Require Import Vault Row Table Grid Tableabs Tablexml Tablechk TableB TableBabs TableBchk.\n'
           'From Coq Require Import List ZArith NArith Bool Arith. Import ListNotations. Open Scope Z_scope.\n'
-          'Inductive stepobs2 := S2 (o : bop) (post : xtable) (postd : cdump) (raised : bool) (out : bans)\n'
+          'Inductive stepobs2 := S2 (o : option bop) (post : xtable) (postd : cdump) (raised : bool) (out : bans)\n'
           '   (twin : xtable) (traised : bool) (tout : bans) (live fresh : list (bread * bans)) (afterd : cdump)\n'
           '   (reload : option (xtable * list (bread * bans))).\n'
           '(* first hard code of a history as 100*(step+1)+code; 8 / 9 if only a note-level code occurred; 0 otherwise *)\n'
@@ -381,7 +418,7 @@ def init_xml_of(odfdo, rng, kind, maxw, maxh):
     return s[rng.randrange(len(s))][1] if s else '<table:table table:name="t"/>'
 
 
-def gen_case(odfdo, seed, kind, nsteps, kinds=tl.OPS_CORE, maxw=8, maxh=8, reload_every=3, p_read=0.5, p_live=0.1):
+def gen_case(odfdo, seed, kind, nsteps, kinds=tl.OPS_CORE, maxw=8, maxh=8, reload_every=3, p_read=0.5, p_live=0.1, p_opaque=0.08):
     """state-dependent generation and execution in one pass: before each mutation, with probability p_read, one or two
     cache-filling reads (get_row / get_cell with clone true or false, traverse, get_column, columns, get_value, ...);
     positions around the run boundaries of the CURRENT state.  Returns (case JSON, result)."""
@@ -400,7 +437,10 @@ def gen_case(odfdo, seed, kind, nsteps, kinds=tl.OPS_CORE, maxw=8, maxh=8, reloa
             todo = []
             if rng.random() < p_read:
                 todo += [dict(read=g_fill_read(rng, nodes)) for _ in range(rng.choice([1, 1, 2]))]
-            if rng.random() < p_live:
+            x_ = rng.random()
+            if x_ < p_opaque:
+                todo.append(dict(opaque=g_opaque(rng, nodes)))
+            elif x_ < p_opaque + p_live:
                 todo.append(dict(live=g_live(rng, nodes)))
             else:
                 todo.append(dict(op=tl.g_op(rng, nodes, kinds, maxw, maxh)))
